@@ -11,26 +11,35 @@ def warm(prop): build('gcc20-ubsan')
 class Buf:
     def __init__(self, data): self.d = list(data); self.valid = True
 
-class Sim:
-    """the property statement as an executable abstract machine (container()[mapping(i)], deep copies, moves transfer)"""
+class Map:
+    """a mapping value as the property statement sees it: extents, strides, required_span_size()"""
     def __init__(self, inst, es, ss, pv):
-        self.kind, self.sp, self.t, self.pat, self.ck = inst
-        self.es = list(es); self.st = spec_strides(self.kind, self.sp, self.pat, list(es), ss, pv)
+        kind, sp, t, pat, ck = inst
+        self.es = list(es); self.st = spec_strides(kind, sp, pat, list(es), ss, pv)
         self.span = 0 if any(e == 0 for e in es) else 1 + sum((e - 1) * s for e, s in zip(es, self.st))
-        if self.kind in ('lpad', 'rpad') and len(es) >= 2:
+        if kind in ('lpad', 'rpad') and len(es) >= 2:
             # required_span_size() of a padded mapping: padded stride x remaining extents
-            ps = self.st[1] if self.kind == 'lpad' else self.st[-2]
-            self.span = ps * C.prod(es[1:] if self.kind == 'lpad' else es[:-1])
-        self.pool = [None] * 4; self.views = [None] * 2; self.has_pv = pv is not None
+            ps = self.st[1] if kind == 'lpad' else self.st[-2]
+            self.span = ps * C.prod(es[1:] if kind == 'lpad' else es[:-1])
+        self.idxs = list(itertools.product(*[range(e) for e in es]))
     def off(self, ix): return sum(i * s for i, s in zip(ix, self.st))
+
+class Sim:
+    """the property statement as an executable abstract machine (container()[mapping(i)], deep copies, moves transfer);
+    every object carries its own mapping (two mappings of the same type per line, so that assignment / conversion of the
+    mapping is observable)"""
+    def __init__(self, inst, maps, has_pv):
+        self.kind, self.sp, self.t, self.pat, self.ck = inst
+        self.maps = maps; self.es = maps[0].es; self.span = maps[0].span
+        self.pool = [None] * 4; self.views = [None] * 2; self.has_pv = has_pv
     def kill(self, i):
         if self.pool[i] is not None: self.pool[i]['buf'].valid = False
-    def new(self, i, data, moved=False):
-        self.kill(i); self.pool[i] = dict(buf=Buf(data), moved=moved)
+    def new(self, i, data, m, moved=False):
+        self.kill(i); self.pool[i] = dict(buf=Buf(data), moved=moved, m=m)
     def obs(self, i):
-        s = self.pool[i]
+        s = self.pool[i]; m = s['m']
         al = [str(j) for j in range(4) if j != i and self.pool[j] is not None and self.pool[j]['buf'] is s['buf'] and len(s['buf'].d) > 0]
-        return 'e=%s s=%s csz=%d sz=%d al=%s dh=1 fw=1' % (C.fmt(self.es), C.fmt(self.st), len(s['buf'].d), C.prod(self.es), ''.join(al) or '-')
+        return 'e=%s s=%s csz=%d sz=%d al=%s dh=1 fw=1' % (C.fmt(m.es), C.fmt(m.st), len(s['buf'].d), C.prod(m.es), ''.join(al) or '-')
 
 def gen_seq(rnd, sim, n_ops):
     """generates an admissible command sequence and, alongside, the outputs the property prescribes"""
@@ -39,72 +48,80 @@ def gen_seq(rnd, sim, n_ops):
     def emit(cmd, w=None):
         seq.append(cmd)
         if w is not None: want.append(w)
-    idxs = list(itertools.product(*[range(e) for e in sim.es]))
     live = lambda: [i for i in range(4) if sim.pool[i] is not None and not sim.pool[i]['moved']]
-    # constructions
     ext_ok = sim.kind != 'stride' and not sim.has_pv      # the mapping is fully determined by the extents
     size_ctors = ['cm'] + ([] if arr else ['cma']) + ((['ce', 'ci'] + ([] if arr else ['cea'])) if ext_ok else [])
     adopt_ctors = ['ad', 'am'] + ([] if arr else ['adma', 'amma']) + ((['ade', 'ame'] + ([] if arr else ['adea', 'amea'])) if ext_ok else [])
+    M0 = sim.maps[0]; M1 = sim.maps[1] if len(sim.maps) > 1 else None
+    def construct(i, which=None):
+        """a construction in slot i by a random constructor form, from the first or the second mapping, observed at once"""
+        m = which if which is not None else (M1 if (M1 is not None and rnd.random() < 0.4) else M0)
+        sfx = '2' if m is M1 else ''
+        if rnd.random() < 0.5:
+            cf = rnd.choice(size_ctors if m is M0 else ['cm']); sim.new(i, [0] * (N if arr else m.span), m); emit('%s%s:%d' % (cf, sfx, i))
+        else:
+            cf = rnd.choice(adopt_ctors if m is M0 else ['ad', 'am']); n2 = N if arr else m.span + rnd.choice([0, 0, 1, 5]); v2 = [rnd.randint(1, 99) for _ in range(n2)]
+            sim.new(i, v2, m); emit('%s%s:%d:%s' % (cf, sfx, i, C.fmt(v2)))
+        emit('ob:%d' % i, sim.obs(i)); emit('el:%d' % i, 'el=' + C.fmt(sim.pool[i]['buf'].d[:256]))
+    # two initial constructions: value-initialised from the first mapping, adopted container
     c0 = rnd.choice(size_ctors)
-    sim.new(0, [0] * (N if arr else sim.span)); emit('%s:0' % c0); emit('ob:0', sim.obs(0)); emit('el:0', 'el=' + C.fmt(sim.pool[0]['buf'].d[:256]))
-    n = N if arr else sim.span + rnd.choice([0, 0, 3])
-    vals = [rnd.randint(1, 99) for _ in range(n)]
-    sim.new(1, vals); emit('%s:1:%s' % (rnd.choice(adopt_ctors), C.fmt(vals))); emit('ob:1', sim.obs(1)); emit('el:1', 'el=' + C.fmt(vals[:256]))
-    sim.ctor_forms = (c0, seq[-3].split(':')[0])
+    sim.new(0, [0] * (N if arr else M0.span), M0); emit('%s:0' % c0); emit('ob:0', sim.obs(0)); emit('el:0', 'el=' + C.fmt(sim.pool[0]['buf'].d[:256]))
+    if M1 is not None: construct(1, M1)
+    else:
+        n = N if arr else M0.span + rnd.choice([0, 0, 3]); vals = [rnd.randint(1, 99) for _ in range(n)]
+        sim.new(1, vals, M0); emit('%s:1:%s' % (rnd.choice(adopt_ctors), C.fmt(vals))); emit('ob:1', sim.obs(1)); emit('el:1', 'el=' + C.fmt(vals[:256]))
     for _ in range(n_ops):
         L = live()
-        op = rnd.choice(['wa', 'ra', 'vw', 'wv', 'rv', 'cc', 'mc', 'ca', 'ma', 'ob', 'wa', 'ra', 'ov', 'cv', 'nw'])
-        if op == 'nw':        # a further construction in a random slot (any of the constructor forms), observed at once
-            i = rnd.randrange(4)
-            if rnd.random() < 0.5:
-                cf = rnd.choice(size_ctors); sim.new(i, [0] * (N if arr else sim.span)); emit('%s:%d' % (cf, i))
-            else:
-                cf = rnd.choice(adopt_ctors); n2 = N if arr else sim.span + rnd.choice([0, 0, 1, 5]); v2 = [rnd.randint(1, 99) for _ in range(n2)]
-                sim.new(i, v2); emit('%s:%d:%s' % (cf, i, C.fmt(v2)))
-            emit('ob:%d' % i, sim.obs(i)); emit('el:%d' % i, 'el=' + C.fmt(sim.pool[i]['buf'].d[:256])); continue
+        op = rnd.choice(['wa', 'ra', 'vw', 'wv', 'rv', 'cc', 'mc', 'ca', 'ma', 'ob', 'wa', 'ra', 'ov', 'cv', 'nw', 'rc'])
+        if op == 'nw': construct(rnd.randrange(4)); continue
         if op == 'cv':        # converting constructor (through the all-dynamic twin and back), with or without allocator
             src = [j for j in range(4) if sim.pool[j] is not None]
             if not src: continue
             j = rnd.choice(src); i = rnd.choice([x for x in range(4) if x != j]); sj = sim.pool[j]
-            sim.new(i, sj['buf'].d, sj['moved']); emit('%s:%d:%d' % (rnd.choice(['cv'] + ([] if arr else ['cva'])), i, j)); emit('ob:%d' % i, sim.obs(i)); emit('ob:%d' % j, sim.obs(j))
+            sim.new(i, sj['buf'].d, sj['m'], sj['moved']); emit('%s:%d:%d' % (rnd.choice(['cv'] + ([] if arr else ['cva'])), i, j)); emit('ob:%d' % i, sim.obs(i)); emit('ob:%d' % j, sim.obs(j))
             emit('el:%d' % i, 'el=' + C.fmt(sim.pool[i]['buf'].d[:256])); continue
-        if op == 'wa' and L and idxs:
-            i = rnd.choice(L); ix = rnd.choice(idxs); v = rnd.randint(100, 999)
-            sim.pool[i]['buf'].d[sim.off(ix)] = v; emit('wa:%d:%d:%s' % (i, v, C.fmt(list(ix))))
-        elif op == 'ra' and L and idxs:
-            i = rnd.choice(L); ix = rnd.choice(idxs); v = sim.pool[i]['buf'].d[sim.off(ix)]
-            emit('ra:%d:%s' % (i, C.fmt(list(ix))), 'v=%d cv=%d pos=%d' % (v, v, sim.off(ix)))
+        if op in ('wa', 'ra', 'rc') and L:
+            i = rnd.choice(L); m = sim.pool[i]['m']
+            if not m.idxs: continue
+            ix = rnd.choice(m.idxs)
+            if op == 'wa':
+                v = rnd.randint(100, 999); sim.pool[i]['buf'].d[m.off(ix)] = v; emit('wa:%d:%d:%s' % (i, v, C.fmt(list(ix))))
+            elif op == 'ra':
+                v = sim.pool[i]['buf'].d[m.off(ix)]; emit('ra:%d:%s' % (i, C.fmt(list(ix))), 'v=%d cv=%d pos=%d' % (v, v, m.off(ix)))
+            else:      # element read through each of the four view-producing members of the (const / non-const) array
+                v = sim.pool[i]['buf'].d[m.off(ix)]; emit('rc:%d:%s' % (i, C.fmt(list(ix))), 'tm=%d tc=%d om=%d oc=%d same=1' % (v, v, v, v))
         elif op == 'vw' and L:
-            i = rnd.choice(L); k = rnd.randrange(2); sim.views[k] = sim.pool[i]['buf']; emit('%s:%d:%d' % (rnd.choice(['vw', 'vc']), k, i))
+            i = rnd.choice(L); k = rnd.randrange(2); sim.views[k] = (sim.pool[i]['buf'], sim.pool[i]['m']); emit('%s:%d:%d' % (rnd.choice(['vw', 'vc']), k, i))
         elif op in ('wv', 'rv', 'ov'):
-            ks = [k for k in range(2) if sim.views[k] is not None and sim.views[k].valid and len(sim.views[k].d) >= sim.span]
+            ks = [k for k in range(2) if sim.views[k] is not None and sim.views[k][0].valid and len(sim.views[k][0].d) >= sim.views[k][1].span]
             if not ks: continue
-            k = rnd.choice(ks); b = sim.views[k]
+            k = rnd.choice(ks); b, m = sim.views[k]
             if op == 'ov':
                 base = [str(j) for j in range(4) if sim.pool[j] is not None and sim.pool[j]['buf'] is b and len(b.d) > 0]
-                emit('ov:%d' % k, 'base=%s e=%s' % (''.join(base) or '-', C.fmt(sim.es))); continue
-            if not idxs: continue
-            ix = rnd.choice(idxs)
+                emit('ov:%d' % k, 'base=%s e=%s' % (''.join(base) or '-', C.fmt(m.es))); continue
+            if not m.idxs: continue
+            ix = rnd.choice(m.idxs)
             if op == 'wv':
-                v = rnd.randint(1000, 9999); b.d[sim.off(ix)] = v; emit('wv:%d:%d:%s' % (k, v, C.fmt(list(ix))))
-            else: emit('rv:%d:%s' % (k, C.fmt(list(ix))), 'v=%d' % b.d[sim.off(ix)])
+                v = rnd.randint(1000, 9999); b.d[m.off(ix)] = v; emit('wv:%d:%d:%s' % (k, v, C.fmt(list(ix))))
+            else: emit('rv:%d:%s' % (k, C.fmt(list(ix))), 'v=%d' % b.d[m.off(ix)])
         elif op in ('cc', 'mc'):
             src = [j for j in range(4) if sim.pool[j] is not None]
             if not src: continue
             j = rnd.choice(src); i = rnd.choice([x for x in range(4) if x != j]); s = sim.pool[j]
-            if op == 'cc' or arr: sim.new(i, s['buf'].d, s['moved'])
+            if op == 'cc' or arr: sim.new(i, s['buf'].d, s['m'], s['moved'])
             else:
-                sim.kill(i); sim.pool[i] = dict(buf=s['buf'], moved=s['moved']); sim.pool[j] = dict(buf=Buf([]), moved=True)
+                sim.kill(i); sim.pool[i] = dict(buf=s['buf'], moved=s['moved'], m=s['m']); sim.pool[j] = dict(buf=Buf([]), moved=True, m=s['m'])
             emit('%s:%d:%d' % (op, i, j)); emit('ob:%d' % i, sim.obs(i)); emit('ob:%d' % j, sim.obs(j))
         elif op in ('ca', 'ma'):
             both = [j for j in range(4) if sim.pool[j] is not None]
             if len(both) < 2: continue
             i, j = rnd.sample(both, 2); si, sj = sim.pool[i], sim.pool[j]
-            if arr: si['buf'].d[:] = sj['buf'].d; si['moved'] = sj['moved']
-            elif op == 'ca': sim.new(i, sj['buf'].d, sj['moved'])
+            if arr: si['buf'].d[:] = sj['buf'].d; si['moved'] = sj['moved']; si['m'] = sj['m']
+            elif op == 'ca': sim.new(i, sj['buf'].d, sj['m'], sj['moved'])
             else:
-                sim.kill(i); sim.pool[i] = dict(buf=sj['buf'], moved=sj['moved']); sim.pool[j] = dict(buf=Buf([]), moved=True)
+                sim.kill(i); sim.pool[i] = dict(buf=sj['buf'], moved=sj['moved'], m=sj['m']); sim.pool[j] = dict(buf=Buf([]), moved=True, m=sj['m'])
             emit('%s:%d:%d' % (op, i, j)); emit('ob:%d' % i, sim.obs(i)); emit('ob:%d' % j, sim.obs(j))
+            if not sim.pool[i]['moved']: emit('el:%d' % i, 'el=' + C.fmt(sim.pool[i]['buf'].d[:256]))
         elif op == 'ob' and L:
             i = rnd.choice(L); emit('ob:%d' % i, sim.obs(i)); emit('el:%d' % i, 'el=' + C.fmt(sim.pool[i]['buf'].d[:256]))
     return seq, want
@@ -113,7 +130,7 @@ def check(prop, tier, seed, replay=None):
     rep = C.Report(prop, tier, seed); audit = C.proof_audit(prop); rnd = random.Random(seed); thorough = tier == 'thorough'
     rep.cov['rule'] = ('mdarray<int, E, L, C> over 7 layouts x 3 index types x 6 extents patterns x {std::vector<int>, std::array<int,64>}: construct from mapping / extents / integer pack, each with and without allocator (value-initialisation and exact size observed), '
                        'adopt a container by const reference / by move from extents or mapping, with and without allocator, converting construction (with and without allocator) through the all-dynamic twin type, then 8 (thorough 40) random operations among element write / read (const and non-const) through the array, to_mdspan() / conversion operator, '
-                       'write / read through the view, copy / move construction and assignment, with observations of extents, strides, container size, size(), aliasing between all live objects and views; '
+                       'write / read through the view, copy / move construction and assignment, with observations of extents, strides, container size, size(), aliasing between all live objects and views; objects of one pool are built from two different mappings of the same type (other dynamic extents / strides / run-time padding) so that the mapping part of copy / move / assignment / conversion is observable; all four view-producing members (to_mdspan and the conversion operator, const and non-const) are read through; '
                        'only admissible actions (no access to moved-from objects, no use of views whose buffer was released); non-trivial = rank >= 1 and non-empty')
     cases = []
     if replay: cases = [(replay['line'], replay['want'], replay.get('seq'))]
@@ -122,14 +139,21 @@ def check(prop, tier, seed, replay=None):
             kind, sp, t, pat, ck = inst; H = C.hi(t)
             for _ in range(2 if not thorough else 8):
                 es = [p if p is not None else rnd.choice([0, 1, 2, 3, 4]) for p in pat]
-                ss = None
-                if kind == 'stride':
-                    ss = chain_strides(rnd, es, (1, 1, 2))
+                ss = chain_strides(rnd, es, (1, 1, 2)) if kind == 'stride' else None
                 pv = rnd.choice([None, 1, 2, 3]) if (kind in ('lpad', 'rpad') and sp == 'D') else None
-                sim = Sim(inst, es, ss, pv)
-                if sim.span > min(H, 60): continue
+                maps = [Map(inst, es, ss, pv)]; alt = ''
+                # a second mapping of the same type: other dynamic extents, other strides, other run-time padding
+                if rnd.random() < 0.7 and (any(p is None for p in pat) or kind == 'stride' or (kind in ('lpad', 'rpad') and sp == 'D')):
+                    es2 = [p if p is not None else (e if rnd.random() < 0.6 else rnd.choice([0, 1, 2, 3, 4])) for p, e in zip(pat, es)]
+                    ss2 = chain_strides(rnd, es2, (1, 1, 2)) if kind == 'stride' else None
+                    pv2 = rnd.choice([1, 2, 3, 4]) if (kind in ('lpad', 'rpad') and sp == 'D') else None
+                    m2 = Map(inst, es2, ss2, pv2)
+                    if (m2.es, m2.st) != (maps[0].es, maps[0].st):
+                        maps.append(m2); alt = ' ext2=%s' % C.fmt(es2) + (' str2=%s' % C.fmt(ss2) if ss2 is not None else '') + (' pv2=%d' % pv2 if pv2 is not None else '')
+                if any(m.span > min(H, 60) for m in maps): continue
+                sim = Sim(inst, maps, pv is not None)
                 seq, want = gen_seq(rnd, sim, 8 if not thorough else 40)
-                line = G.line(inst) + ' ext=%s' % C.fmt(es) + (' str=%s' % C.fmt(ss) if ss is not None else '') + (' pv=%d' % pv if pv is not None else '') + ' seq=' + '/'.join(seq)
+                line = G.line(inst) + ' ext=%s' % C.fmt(es) + (' str=%s' % C.fmt(ss) if ss is not None else '') + (' pv=%d' % pv if pv is not None else '') + alt + ' seq=' + '/'.join(seq)
                 cases.append((line, want, seq))
     lines = [c[0] for c in cases]
     import collections
@@ -143,8 +167,10 @@ def check(prop, tier, seed, replay=None):
         except C.BuildError as e:
             rep.broke(dict(correspondence='mdarray op server build (%s)' % cfg, why=str(e), log=e.log[-3000:])); continue
         rep.notes.setdefault('server_build_s', {})[cfg] = round(secs, 1)
+        partial = C.report_dropped(rep, exe, 'mdarray op server', cfg)
         iout = [canon(x) for x in C.pipe(exe, lines)]
         for (line, want, seq), xi, xm in zip(cases, iout, mout):
+            if partial and xi == 'no-inst': continue      # instantiation does not compile (reported above); keep searching with the rest
             rep.cov['evaluations'] += len(seq or []); rep.cov['traces_validated_against_impl'] += 1
             pub = dict(line=line, want=want, config=cfg)
             if ' ext=-' not in line: rep.nontrivial(line)
